@@ -127,17 +127,17 @@ def panic_key(o):
 
 
 def load_local_findings(ctx):
-    """findings.d/C06.json is the fragment the coordinator merges into known-findings.json; until then read it directly."""
-    path = os.path.join(lib.VERIF, "findings.d", "C06.json")
+    """findings.d/C06.json is the fragment the coordinator merges into known-findings.json; it is authoritative for this
+    property (VERIF_C06_FINDINGS selects another fragment, e.g. findings.d/C06.json.after-fix on a tree with the fixes)."""
+    path = os.environ.get("VERIF_C06_FINDINGS") or os.path.join(lib.VERIF, "findings.d", "C06.json")
     known = ctx.known()
-    have = {(k.get("property"), k.get("key")) for k in known}
     try:
         with open(path) as f:
-            for k in json.load(f):
-                if (k.get("property"), k.get("key")) not in have:
-                    known.append(k)
+            local = json.load(f)
     except FileNotFoundError:
-        pass
+        return
+    keys = {k.get("key") for k in local}
+    known[:] = [k for k in known if not (k.get("property") == ctx.prop and k.get("key") in keys)] + local
 
 
 def report(ctx, header, cases_by_id, o, v):
